@@ -18,6 +18,7 @@ import (
 	flatbuffers "github.com/google/flatbuffers/go"
 
 	"github.com/newrelic/newrelic-php-agent/daemon/internal/newrelic/collector"
+	"github.com/newrelic/newrelic-php-agent/daemon/internal/newrelic/infinite_tracing"
 	"github.com/newrelic/newrelic-php-agent/daemon/internal/newrelic/protocol"
 )
 
@@ -645,6 +646,29 @@ func vConnectBody(t []string) string {
 	return body + "}"
 }
 
+// vBuildSpanBatch: a well-formed span-batch message (count, encoded bytes) for the run, as the agent's
+// nr_span_queue flush sends it
+func vBuildSpanBatch(run string, seed uint64) []byte {
+	buf := flatbuffers.NewBuilder(0)
+	n := int(seed%7) + 1
+	payload := make([]byte, 16*n)
+	for i := range payload {
+		payload[i] = byte(seed>>uint(i%40)) + byte(i)
+	}
+	offset := buf.CreateByteVector(payload)
+	protocol.SpanBatchStart(buf)
+	protocol.SpanBatchAddCount(buf, uint64(n))
+	protocol.SpanBatchAddEncoded(buf, offset)
+	dataOffset := protocol.SpanBatchEnd(buf)
+	id := buf.CreateString(run)
+	protocol.MessageStart(buf)
+	protocol.MessageAddAgentRunId(buf, id)
+	protocol.MessageAddDataType(buf, protocol.MessageBodySpanBatch)
+	protocol.MessageAddData(buf, dataOffset)
+	buf.Finish(protocol.MessageEnd(buf))
+	return buf.Bytes[buf.Head():]
+}
+
 func vBuildTxn(run string, t []string) []byte {
 	b := flatbuffers.NewBuilder(0)
 	num := func(s string) []byte { return []byte(s) }
@@ -881,7 +905,18 @@ func vProcOp(t []string) string {
 		run := vStr(t, 2)
 		seedN, _ := strconv.ParseUint(vKVor(t, "seed", "1"), 10, 64)
 		msg := vBuildTxn(run, t)
+		if vKVor(t, "kind", "txn") == "span" {
+			// a span batch for a run whose application uses infinite tracing: the run gets an idle trace observer (queue
+			// only, no gRPC worker), so that processSpanBatch takes the path that hands the batch over
+			if ah, ok := v.p.harvests[AgentRunID(run)]; ok && ah.TraceObserver == nil {
+				ah.TraceObserver = infinite_tracing.VerifIdleObserver(1000)
+			}
+			msg = vBuildSpanBatch(run, seedN)
+		}
 		bad, kind := vMutate(msg, seedN)
+		if vKVor(t, "kind", "txn") == "span" {
+			kind = "span-" + kind
+		}
 		frame := make([]byte, 8+len(bad))
 		byteOrder.PutUint32(frame[0:4], uint32(len(bad)))
 		byteOrder.PutUint32(frame[4:8], uint32(MessageTypeBinary))
